@@ -17,6 +17,7 @@ Decided statically:
 Not decided: races between refill and callers as such; server behaviour.
 """
 from ..mir import AnchorLost
+from ..dataflow import DisjFlow
 from ..util import enum_variant_of_operand, df_of, fn_short, in_set, operand_path, path_last, backward_slice, field_writers, callers_keys, switch_on, switch_edges, yields, _rv_locals
 
 P = "scylla::network::connection_pool::"
@@ -74,39 +75,39 @@ def r1(ctx, facts):
             f |= slice_fields(b, a)
         if "keyspace_name" in f and "current_keyspace" in f:
             cmps.append(c)
-    if len(cmps) != 1:
-        raise AnchorLost("handle_ready_connection: expected exactly one comparison of evt.keyspace_name with self.current_keyspace, found %d (the publication gate)" % len(cmps))
-    cmp_ = cmps[0]
-    sws = switch_on(b, df, ("call", cmp_.bb))
-    if len(sws) != 1:
-        raise AnchorLost("the keyspace comparison is not branched on exactly once")
-    edges, other = switch_edges(b, sws[0])
-    is_ne = cmp_.decl.endswith("::ne")
-    true_tg = other if 0 in edges else edges.get(1)
-    false_tg = edges.get(0)
-    differ_tg, equal_tg = (true_tg, false_tg) if is_ne else (false_tg, true_tg)
-    # None edge of the current_keyspace test
-    none_edges = []
-    for bb in b.live_blocks:
-        t = b.term(bb)
-        if t[0] == "switch":
-            e = df.expr_of_operand(t[1])
-            if e[0] == "disc" and e[1][1][-1:] == ("current_keyspace",):
-                for v, tg in t[2]:
-                    if int(v) == 0:
-                        none_edges.append((bb, tg))
-                ed = {int(v) for v, _ in t[2]}
-                if 0 not in ed:
-                    none_edges.append((bb, t[3]))
-    r.instance("current-keyspace-tested", bool(none_edges), "handle_ready_connection must branch on self.current_keyspace", b.span)
-    cut = [(sws[0], equal_tg)] + none_edges
-    reach = b.reachable_from(0, removed_edges=cut)
-    r.instance("push-only-if-keyspace-matches", push.bb not in reach,
-               "with the `current_keyspace == None` edge and the `keyspace equal` edge removed, the push into conns must be unreachable", push.span)
-    r.instance("mismatch-cannot-publish", push.bb not in b.reachable_from(differ_tg), "the 'keyspace differs' outcome must not reach the push", cmp_.span)
-    st = b.calls_to("PoolRefiller::start_setting_keyspace_for_connection")
-    r.instance("mismatch-goes-through-setup", bool(st) and all(s.bb in b.reachable_from(differ_tg) for s in st) and not (b.reachable_from(differ_tg, removed_nodes=[s.bb for s in st]) & set(b.exits)),
-               "the 'keyspace differs' outcome must call start_setting_keyspace_for_connection on every path", cmp_.span)
+    st_calls = b.calls_to("PoolRefiller::start_setting_keyspace_for_connection")
+    r.instance("gate-compares-keyspaces", bool(cmps), "handle_ready_connection must compare the keyspace the connection was set up with (evt.keyspace_name) with self.current_keyspace before publishing it", b.span)
+    r.instance("mismatch-routed-to-setup", bool(st_calls), "handle_ready_connection must be able to route a connection through start_setting_keyspace_for_connection", b.span)
+    if not cmps or not st_calls:
+        return
+    # The gate, independent of its syntactic form (if-let chain, match into a boolean, early return ...):
+    # S = blocks from which keyspace setup is still reachable. A path to the push leaves S through a "decline" edge; on each
+    # such edge every disjunctive abstract state must say `current_keyspace is None` or `the comparison came out equal`.
+    setup_bbs = {c.bb for c in st_calls}
+    S = {bb for bb in b.live_blocks if setup_bbs & (b.reachable_from(bb) | {bb})}
+    r.instance("publish-after-gate", push.bb not in S, "the push into conns must come after the decision whether keyspace setup is needed", push.span)
+    dj = DisjFlow(b, facts)
+
+    def ok_state(st):
+        for k, v in st.items():
+            if k[0] == "disc" and k[1][1][-1:] == ("current_keyspace",) and in_set(v, {0}):
+                return True      # no keyspace set on the pool
+        for c in cmps:
+            v = st.get(("call", c.bb))
+            if in_set(v, {1 if c.decl.endswith("::eq") else 0}):
+                return True      # evt.keyspace_name == current_keyspace
+        return False
+    decline = [(u, v) for u in S for v in b.succ[u] if v not in S and v in b.live_blocks and (push.bb == v or push.bb in b.reachable_from(v))]
+    bad = []
+    for u, v in decline:
+        for stt in dj.states_on_edge(u, v):
+            if not ok_state(stt):
+                bad.append((u, v, dj.fmt_state(stt)[:300]))
+    r.instance("current-keyspace-tested", any(k[0] == "disc" and k[1][1][-1:] == ("current_keyspace",) for fs in dj.edge_sets.values() for st2 in fs for k, _ in st2),
+               "handle_ready_connection must branch on self.current_keyspace", b.span)
+    r.instance("push-only-if-keyspace-matches", bool(decline) and not bad,
+               "a path reaches the push into conns without keyspace setup although neither `current_keyspace == None` nor `evt.keyspace_name == current_keyspace` is established on it: %s" % (bad[:2],),
+               push.span)
     # update_shared_conns publishes only `conns`
     ub = facts.one(r"^scylla::network::connection_pool::PoolRefiller::update_shared_conns$")
     clones = [c for c in ub.calls_to("core::clone::Clone::clone") if "Connection" in ub.local_ty(c.dest[0])]
